@@ -47,6 +47,7 @@ func routerPkg(path string) string {
 }
 
 func runC17(c *core.Ctx) {
+	checkSpanKeyedByOwnChain(c, "C17.per-chain-span")
 	checkIDsFromOwnCounter(c, "C17.id-from-own-counter", "native/service/governance/...")
 	checkUpdateFeeRound(c)
 	checkVoteTagsDistinct(c, "C17.ledger-tag")
